@@ -42,8 +42,10 @@ CHECKS = {
         "compared with the real constructors / generate_mesh exactly. The WKT parser has its own token-level model (12 theorems: a completed "
         "lattice is consistent exactly when no row repeats a position) compared exactly per run. join_two_vertices preserves consistency "
         "under an explicit decidable precondition (joinTwoVertices_consistent; each part of the precondition shown necessary by a witness; "
-        "chains of merges — finding D17 — are machine-checked counterexamples). The generate_mesh merge loop as a whole and the skeleton "
-        "clean-up have no preservation theorem (pending): for them the claim rests on the per-run evaluation on parsed, generated and "
+        "chains of merges — finding D17 — are machine-checked counterexamples). The generate_mesh merge loop as a whole preserves consistency "
+        "when the collected pairs are pairwise vertex-disjoint and proper (generateMesh_true_consistent; both hypotheses shown necessary by "
+        "witnesses). Chains of merges and the skeleton clean-up have no preservation theorem (pending): for them the claim rests on the "
+        "per-run evaluation on parsed, generated and "
         "resampled meshes (shipped files, generated dumps, rasterised skeletons thinned and as drawn, tessellations, WKT).",
    design_ref="DESIGN.md §7 C09",
    technique="Lean 4 invariant theorems over an association-list mesh model + per-step evaluation of the Lean predicate on dumps of the real objects",
@@ -56,7 +58,7 @@ CHECKS = {
         "resampled interface with unchanged id/coordinates; interface ends survive; every cycle is a subsequence of its original). Tied to the "
         "code by exact comparison of generate_mesh's three dictionaries, nEdgeArray and error kind with the model, plus an oracle for every "
         "clause on (snapshot before, result), incl. junction positions, adjacency, midpoint contraction and idempotence. Merging of "
-        "two-point border interfaces in chains is a known finding (D17). Resampling without merging is proved to preserve mesh consistency (generateMesh_false_consistent, Props/C11mesh.lean) under two decidable hypotheses with witnesses; junction ends are kept at their exact position.",
+        "two-point border interfaces in chains is a known finding (D17); with pairwise vertex-disjoint proper pairs the merging loop is proved to return no error and a consistent mesh (generateMesh_true_consistent, Props/C11merge.lean). Resampling without merging is proved to preserve mesh consistency (generateMesh_false_consistent, Props/C11mesh.lean) under two decidable hypotheses with witnesses; junction ends are kept at their exact position.",
    design_ref="DESIGN.md §7 C11",
    technique="Lean 4 theorems over list/mesh model + exact differential check against virtual_edges.generate_mesh",
    note=BASE_NOTE + " int(len/ne*i) == floor(len*i/ne) is re-checked exhaustively per run for len<800 (quick) / 3000 (thorough), ne<=12."),
@@ -210,7 +212,10 @@ CHECKS = {
    text="Assembled from C02 (matrix = true tangents), C11 (resampled points stay on the same circle), C05 (solver output certified optimal) and "
         "the theorems here: a Voronoi ridge is perpendicular to its site difference and the Maxwell pulls at a vertex of any degree sum to zero; "
         "conformal (Moebius) images keep force balance; the normalised true tensions solve the augmented system exactly; with an injective "
-        "augmented matrix every minimiser over the non-negative candidates is true tension / mean with zero multiplier. Per run: Maxwell / "
+        "augmented matrix every minimiser over the non-negative candidates is true tension / mean with zero multiplier. End to end in the model "
+        "(Props/C01matrix.lean): the matrix _build_matrix assembles, applied to the true tensions, is zero whenever the stored tangents are the "
+        "true ones and the tissue is in balance (assembled_balance), and then any minimiser of the augmented residual is tension/mean "
+        "(static_inference_recovers_tensions; hypotheses instantiated on an exact lens tissue). Per run: Maxwell / "
         "Moebius tissues at random poses and samplings, optional generate_mesh(ne=2..12), all back-ends, both fits: reported tensions against "
         "truth within a conditioning-scaled tolerance on well-posed systems; the matrix against the Lean model and the solution's exact "
         "certificate on the very systems solved. Float rounding is outside the theorems (partial in that sense). D2 cases are known findings.",
